@@ -1,10 +1,151 @@
 import BFL.Driver.Proto
-/- Driver entries of this group (stub: no operation handled yet). -/
+import BFL.Core.GaussJordan
+import BFL.Model.Density
+/-
+Driver entries for the Gaussian density utilities and log-sum-exp (C15).
+
+The model is executed over `Rat`: quadratic forms, determinants and every other field operation are
+exact; only `log` / `exp` go through `Float` (`transcRatViaFloat`).  Every matrix inverse the model
+takes is certified exactly (`A·X = 1 ∧ X·A = 1`), otherwise the line is `inv-cert-fail`.
+
+  ld  d b  x(d×b) m(d) S(d×d)
+      -> ok  det  q_0..q_{b-1}  L_0..L_{b-1}  D_0..D_{b-1}
+         (det, q exact rationals; L = log-density, D = density as double bit patterns)
+  uvr nb bs k b enc  x(d×b) m(d) U(d×k) V(k×d) R      enc 0: R is bs×bs (shared), enc 1: R is bs×d
+      -> ok  detS wd_0..  L_0.. D_0..   detDirect qDirect_0..  Ldirect_0.. Ddirect_0..  S(d×d exact)
+         (the second half is the direct evaluation on the assembled S = U V + R)
+  lse n x_0..x_{n-1}            Float execution            -> ok <double>
+  lsex n x_0..x_{n-1}           Ext Rat execution (−∞)     -> ok neginf | nan | <double>
+-/
 namespace BFL.DriverDensity
 open BFL BFL.Proto
 
+attribute [local instance] transcRatViaFloat
+
+/-- exact Gauss–Jordan inverse (zero matrix when singular; every use is certified below) -/
+def invQ : InvFn Rat := fun n A =>
+  match matInv? n A with
+  | some X => Mat.eval X
+  | none => Mat.zero
+
+/-- exact certificate `A·X = 1 ∧ X·A = 1` (products formed once) -/
+def certInvQ {n : Nat} (A X : Mat Rat n n) : Bool :=
+  let P := Mat.mul A X
+  let Q := Mat.mul X A
+  (List.finRange n).all fun i => (List.finRange n).all fun j =>
+    (P i j == (if i = j then (1 : Rat) else 0)) && (Q i j == (if i = j then (1 : Rat) else 0))
+
+/-- one certified inverse: the matrix (row-major entries), its inverse, the certificate -/
+structure InvEntry where
+  n : Nat
+  key : List Rat
+  inv : Array Rat
+  ok : Bool
+
+def mkEntry {n : Nat} (A : Mat Rat n n) : InvEntry :=
+  let X := invQ n A
+  { n := n, key := A.toList, inv := X.toList.toArray, ok := certInvQ A X }
+
+/-- The inverse routine handed to the model: looks its argument up among the certified inverses
+    (exact equality of all entries) so that repeated calls (one per batch column in the code) cost
+    one inversion; an argument not in the table is inverted on the spot. -/
+def invTable (tbl : List InvEntry) : InvFn Rat := fun n A =>
+  let key := A.toList
+  match tbl.find? (fun e => e.n == n && e.key == key) with
+  | some e => Mat.of (fun i j => e.inv[i.val * n + j.val]!)
+  | none => invQ n A
+
+def outF (q : Rat) : String := floatStr (ratToFloat q)
+
+def ld : R String := do
+  let d ← nat; let b ← nat
+  let x ← matCM rat d b
+  let m ← vec rat d
+  let S ← matCM rat d d
+  done
+  let S := Mat.eval S
+  let eS := mkEntry S
+  if !eS.ok then pure "inv-cert-fail" else
+  let inv := invTable [eS]
+  let detS := Mat.detLU d S
+  if detS ≤ 0 then pure "det-nonpos" else
+  let diff := Mat.eval (diffCols x m)
+  let qs := (List.finRange b).map fun c => quadForm inv S (Mat.col diff c)
+  let L := Vec.eval (logDensity inv x m S)
+  let D := Vec.eval (density inv x m S)
+  pure (join (["ok", ratStr detS] ++ qs.map ratStr ++ outVec outF L ++ outVec outF D))
+
+def readR (nb bs : Nat) (enc : Nat) : R (RNoise Rat nb bs) := do
+  if enc == 0 then
+    let R0 ← matCM rat bs bs
+    pure (.shared (Mat.eval R0))
+  else
+    let R0 ← matCM rat bs (nb * bs)
+    pure (.perBlock (Mat.eval R0))
+
+def uvr : R String := do
+  let nb ← nat; let bs ← nat; let k ← nat; let b ← nat; let enc ← nat
+  let x ← matCM rat (nb * bs) b
+  let m ← vec rat (nb * bs)
+  let U ← matCM rat (nb * bs) k
+  let V ← matCM rat k (nb * bs)
+  let R ← readR nb bs enc
+  done
+  let S := Mat.eval (assembleS U V R)
+  -- every inverse the two evaluations take, certified exactly
+  let eR := match R with
+    | .shared R0 => [mkEntry R0]
+    | .perBlock _ => (List.finRange nb).map fun i => mkEntry (Mat.eval (R.block i))
+  let M := Mat.eval (uvrM (invTable eR) U V R)
+  let tbl := eR ++ [mkEntry M, mkEntry S]
+  if !(tbl.all (·.ok)) then pure "inv-cert-fail" else
+  let inv := invTable tbl
+  let a := uvrAlg inv x m U V R
+  let detD := Mat.detLU (nb * bs) S
+  if a.detS ≤ 0 || detD ≤ 0 then pure "det-nonpos" else
+  let diff := Mat.eval (diffCols x m)
+  let qs := (List.finRange b).map fun c => quadForm inv S (Mat.col diff c)
+  let L := Vec.eval (logDensityUVR inv x m U V R)
+  let D := Vec.eval (densityUVR inv x m U V R)
+  let Ld := Vec.eval (logDensity inv x m S)
+  let Dd := Vec.eval (density inv x m S)
+  pure (join (["ok", ratStr a.detS] ++ outVec ratStr a.wd ++ outVec outF L ++ outVec outF D
+    ++ [ratStr detD] ++ qs.map ratStr ++ outVec outF Ld ++ outVec outF Dd ++ outMatCM ratStr S))
+
+def lse : R String := do
+  let n ← nat
+  match n with
+  | 0 => pure "empty"
+  | n + 1 =>
+    let x ← vec flt (n + 1)
+    done
+    pure (join ["ok", floatStr (logSumExp x)])
+
+def extOfFloat (x : Float) : Ext Rat :=
+  if x.isNaN then .nan
+  else if x.isInf then (if x < 0 then .negInf else .nan)
+  else .fin (floatToRat x)
+
+def lsex : R String := do
+  let n ← nat
+  match n with
+  | 0 => pure "empty"
+  | n + 1 =>
+    let x ← vec flt (n + 1)
+    done
+    let xe : Vec (Ext Rat) (n + 1) := Vec.of (fun i => extOfFloat (x i))
+    let r : Ext Rat := logSumExp xe
+    pure (join ["ok", match r with
+      | Ext.negInf => "neginf"
+      | Ext.nan => "nan"
+      | Ext.fin q => outF q])
+
 def handle (op : String) (args : List String) : Option String :=
   match op with
+  | "ld" => some ((run ld args).getD "bad-args")
+  | "uvr" => some ((run uvr args).getD "bad-args")
+  | "lse" => some ((run lse args).getD "bad-args")
+  | "lsex" => some ((run lsex args).getD "bad-args")
   | _ => none
 
 end BFL.DriverDensity
